@@ -6,7 +6,7 @@ slot="$1"; shift
 for d in "$@"; do
   name=$(basename $d); prop=${name%%-*}
   t0=$(date +%s)
-  out=$(tools/alt_check.sh $slot $d quick $prop 2>&1)
+  out=$(ALT_FROM_HEAD=1 tools/alt_check.sh $slot $d quick $prop 2>&1)
   echo "$out" > $d/check_quick.txt
   echo "$(echo "$out" | grep '^RESULT' | tail -1) [$(( $(date +%s) - t0 ))s] $(echo "$out" | grep '^VIOLATION' | head -1)"
 done
